@@ -49,6 +49,7 @@ fn main() {
                 "C18" => frame::gen_c18(tier, seed, out),
                 "C06" => frame::gen_c06(tier, seed, out, kv.get("golden").map(|s| s.as_str()).unwrap_or("/verif/golden")),
                 "GOLDEN" => frame::make_golden(out),
+                "GOLDEN2" => frame::make_golden_special(out),
                 "C09" => ids::gen_c09(tier, seed, out, mc, true),
                 _ => {
                     eprintln!("unknown property {}", prop);
